@@ -181,8 +181,27 @@ fn main() {
     run.assume("value alphabet of DESIGN.md §4 plus the F-ord shapes; nested values to depth 64 only");
     run.assume("independent reference for == : structural on containers, exact rational comparison on numbers (mccore::numref)");
 
-    let vs = extended_alphabet(thorough);
-    let tv: Vec<tera::Value> = vs.iter().map(|v| v.to_tera()).collect();
+    let mut vs = extended_alphabet(thorough);
+    let mut tv: Vec<tera::Value> = vs.iter().map(|v| v.to_tera()).collect();
+    // the same maps with BORROWED string keys (what a serialised struct gives; `V::to_tera` makes
+    // owned keys): equal to their owned twins, ordered like them (seeded change C15-3: Ord for Key
+    // forgot the owned/borrowed pair)
+    for (desc, entries) in [
+        (V::map(&[("a", V::I64(1))]), vec![("a", 1i64)]),
+        (V::map(&[("b", V::I64(1))]), vec![("b", 1)]),
+        (V::map(&[("a", V::I64(2))]), vec![("a", 2)]),
+        (V::map(&[("a", V::I64(1)), ("b", V::I64(1))]), vec![("a", 1), ("b", 1)]),
+    ] {
+        let mut m = tera::value::Map::new();
+        for (k, v) in entries {
+            m.insert(Key::Str(k), tera::Value::from(v));
+        }
+        vs.push(desc.clone());
+        tv.push(tera::Value::from(m.clone()));
+        // and nested in an array
+        vs.push(V::Arr(vec![desc]));
+        tv.push(tera::Value::from(vec![tera::Value::from(m)]));
+    }
     let n = vs.len() as u64;
     run.extra("value_alphabet_size", json!(n));
 
@@ -388,6 +407,57 @@ fn main() {
 
     // ---------------------------------------------------------------- key laws
     let ks = key_alphabet();
+    // the tera keys under test: every key owned, string keys additionally borrowed
+    let tks: Vec<(Key<'static>, &K, &'static str)> = {
+        let mut v: Vec<(Key<'static>, &K, &'static str)> = vec![];
+        for k in &ks {
+            v.push((k.to_tera(), k, "owned"));
+            if let K::Str(s) = k {
+                let leaked: &'static str = Box::leak(s.clone().into_boxed_str());
+                v.push((Key::Str(leaked), k, "borrowed"));
+            }
+        }
+        v
+    };
+    let ntk = tks.len() as u64;
+    run.family(
+        Family::new("key-laws-owned-borrowed", ntk * ntk, &format!("all {ntk}^3 ordered triples of tera keys (every key encoding owned, string keys also borrowed): Eq / Ord / Hash against the reference")),
+        |item, acc: &mut Acc| {
+            let (ia, ib) = ((item / ntk) as usize, (item % ntk) as usize);
+            let (ka, ra, sa) = &tks[ia];
+            let (kb, rb, sb) = &tks[ib];
+            let case = || json!({"a": format!("{} ({sa})", ra.describe()), "b": format!("{} ({sb})", rb.describe())});
+            let want = ref_key_eq(ra, rb);
+            if (ka == kb) != want {
+                acc.violation("key-eq:owned-borrowed", format!("Key == is {}, reference {want}", ka == kb), case);
+            }
+            if want && hash_of(ka) != hash_of(kb) {
+                acc.violation("key-hash:owned-borrowed", "equal keys hash differently", case);
+            }
+            let c_ab = ka.cmp(kb);
+            if (c_ab == Ordering::Equal) != want {
+                acc.violation("key-cmp-equal-vs-eq:owned-borrowed", format!("cmp is {} while the keys are {}equal", ord_name(c_ab), if want { "" } else { "not " }), case);
+            }
+            if c_ab != kb.cmp(ka).reverse() {
+                acc.violation("key-cmp-antisymmetry:owned-borrowed", "cmp(a,b) != reverse(cmp(b,a))", case);
+            }
+            for (kc, rc, sc) in &tks {
+                let (c_bc, c_ac) = (kb.cmp(kc), ka.cmp(kc));
+                let mut nontrivial = false;
+                if c_ab != Ordering::Greater && c_bc != Ordering::Greater {
+                    nontrivial = true;
+                    let strict = c_ab == Ordering::Less || c_bc == Ordering::Less;
+                    let ok = if strict { c_ac == Ordering::Less } else { c_ac == Ordering::Equal };
+                    if !ok {
+                        acc.violation("key-cmp-intransitive:owned-borrowed", "a<=b<=c but not a<=c consistently", || {
+                            json!({"a": format!("{} ({sa})", ra.describe()), "b": format!("{} ({sb})", rb.describe()), "c": format!("{} ({sc})", rc.describe())})
+                        });
+                    }
+                }
+                acc.case(nontrivial, if nontrivial { "premise-held" } else { "premise-not-held" });
+            }
+        },
+    );
     let nk = ks.len() as u64;
     run.extra("key_alphabet_size", json!(nk));
     run.family(
